@@ -88,6 +88,10 @@ def integrate_instances(tier, prop):
         for dense in (True, False):
             out.append(dict(id="integrate-euler-n-%s-N2-two-calls" % ("dense" if dense else "nodense"), kind="integrate", family="euler", events=["n"], dense=dense,
                             N=2, max_reports=3, two_calls=True, budget=b))
+    if prop in ("C07", "C08"):
+        # two calls; between them the user changes the direction attribute of the same event function object
+        out.append(dict(id="integrate-euler-n-dense-N2-two-calls-flip-direction", kind="integrate", family="euler", events=["n"], dense=True, N=2,
+                        max_reports=2, two_calls=True, flip_direction=True, budget=b))
     if prop == "C08":
         # three steps with dense_output=False: from the third step on the interpolants of old steps have been pruned
         out.append(dict(id="integrate-euler-n-nodense-N3", kind="integrate", family="euler", events=["n"], dense=False, N=3, max_reports=2, budget=b))
@@ -99,6 +103,8 @@ def integrate_instances(tier, prop):
                 out.append(dict(id="integrate-euler-%s-%s-N2-detector-fault%d" % (evs, "dense" if dense else "nodense", k), kind="integrate", family="euler",
                                 events=[evs], dense=dense, N=2, max_reports=2, fault_call=k, budget=b))
     if prop == "C09":
+        out.append(dict(id="integrate-euler-nT-dense-N2-callback-swaps-constants", kind="integrate", family="euler", events=["n", "T"], dense=True, N=2,
+                        max_reports=2, swap_constants=True, budget=b))
         # two calls; between them the user flips is_terminal on the same event function object (non-terminal -> terminal and back)
         for evs in ("n", "T"):
             out.append(dict(id="integrate-euler-%s-dense-N2-two-calls-flip-terminal" % evs, kind="integrate", family="euler", events=[evs], dense=True, N=2,
